@@ -79,6 +79,10 @@ pub enum Surgery {
         #[serde(default)]
         extended: bool,
     },
+    /// Install a synthesised legacy `kern` table (1-3 subtables, formats 0 and 2, all coverage
+    /// flag combinations) keyed on `glyphs`, and remove `GPOS` so that the kern fallback applies.
+    /// No corpus font has a format 2 subtable.
+    InstallKern { glyphs: Vec<u16>, variant: u64 },
     /// Install `vhea`/`vmtx` derived from `hhea`/`hmtx` (only NotoSansJP has them in the corpus).
     InstallVertical { num_v_metrics: u16 },
 }
